@@ -6,10 +6,6 @@ from functools import cache
 from typing import Protocol
 
 from flowmark.linewrapping.atomic_patterns import ATOMIC_CONSTRUCT_PATTERN
-from flowmark.linewrapping.tag_handling import (
-    denormalize_adjacent_tags,
-    normalize_adjacent_tags,
-)
 
 DEFAULT_LEN_FUNCTION = len
 """
@@ -93,10 +89,10 @@ class _HtmlMdWordSplitter:
     """
 
     def __call__(self, text: str) -> list[str]:
-        # Normalize adjacent tags to ensure proper tokenization
-        text = normalize_adjacent_tags(text)
-
-        # Extract all atomic constructs and replace with placeholders
+        # Extract all atomic constructs and replace with placeholders. Adjacent tags
+        # (`%}{%`) yield adjacent placeholders, i.e. one unbreakable word, and tags
+        # separated by whitespace yield separate words, so the spacing between tags
+        # is reproduced exactly as written.
         construct_map, text_with_placeholders = _extract_atomic_constructs(text)
         # Split on whitespace (placeholders are single tokens)
         tokens = text_with_placeholders.split()
@@ -253,7 +249,4 @@ def wrap_paragraph(
         lines[0] = initial_indent + lines[0]
     if subsequent_indent and len(lines) > 1:
         lines[1:] = [subsequent_indent + line for line in lines[1:]]
-    result = "\n".join(lines)
-
-    # Restore original adjacency for paired tags (remove spaces added during tokenization)
-    return denormalize_adjacent_tags(result)
+    return "\n".join(lines)
